@@ -322,13 +322,15 @@ def warm_rows(conv, df):
     return "rows", [(list(v), s) for v, s in zip(vals, scores)]
 
 
-def encode_history(space, n_inits, opt, rec, records, peek):
+def encode_history(space, n_inits, opt, rec, records, peek, local=None):
     """protocol lines + expected model output for a recorded history.
     `peek(step_index, para)` = what the objective returns at that parameter set (deterministic part)."""
     conv = opt.conv
     names = conv.para_names
-    lines = [C.space_line(space), f"dnew {n_inits}"]
+    lines = [C.space_line(space), f"dnew {n_inits}" if local is None else local["lnew"]]
     expect = ["ok", "ok"]
+    if local is not None:
+        lines += local["tape"]          # `lt` lines print nothing
     if rec.by_call is not None:
         for k, r in enumerate(rec.by_call):
             lines.append(f"dobj {tok_rat(rec.dur_of_step(k))} {res_tokens(r)}")
@@ -358,9 +360,10 @@ def encode_history(space, n_inits, opt, rec, records, peek):
         backend_raised = False
         for e in rcd["ev"]:
             if e[0] == "X":
-                lines.append("draise")
-                expect.append("ok")
-                backend_raised = True
+                if local is None:
+                    lines.append("draise")
+                    expect.append("ok")
+                    backend_raised = True
                 continue
             if e[0] not in ("I", "T"):
                 continue
@@ -370,8 +373,11 @@ def encode_history(space, n_inits, opt, rec, records, peek):
                 r = peek(k, para)
             except Exception:
                 r = float("nan")
-            lines.append(f"dstep {e[0]} " + " ".join(str(int(x)) for x in pos) + f" {tok_rat(rec.dur_of_step(k))} {res_tokens(r)}")
-            expect.append("ok")
+            if local is None:
+                lines.append(f"dstep {e[0]} " + " ".join(str(int(x)) for x in pos) + f" {tok_rat(rec.dur_of_step(k))} {res_tokens(r)}")
+                expect.append("ok")
+            else:
+                lines.append(f"lstep {tok_rat(rec.dur_of_step(k))} {res_tokens(r)}")     # prints nothing
             k += 1
         lines.append("drun")
         if rcd["exc"] is not None:
